@@ -5,6 +5,8 @@ import (
 	"strings"
 
 	"dtcheck/internal/core"
+
+	"golang.org/x/tools/go/ssa"
 )
 
 func init() {
@@ -39,9 +41,10 @@ func c18Counter(r *R) {
 }
 
 func c18Issue(r *R) {
-	nr := r.fn("C18.2", "impl", "manager", "newRequest")
-	if nr != nil {
+	newSites := map[ssa.CallInstruction]bool{}
+	for _, nr := range r.fnI("C18.2", "impl", "manager", "newRequest") {
 		if s := r.one("C18.2", nr, "dyn:message.NewRequest"); s != nil {
+			newSites[s] = true
 			r.argIs("C18.2", s, 0, "m.transferIDGen.next()", "transfer id of a new request")
 			r.argIs("C18.2", s, 1, "false", "restart flag of a new request")
 		}
@@ -54,7 +57,7 @@ func c18Issue(r *R) {
 				continue
 			}
 			n++
-			if core.ShortFn(fn) == "(*impl.manager).newRequest" {
+			if newSites[ci] {
 				continue
 			}
 			rs := r.d.Of(ci.Common().Args[1])
@@ -67,7 +70,7 @@ func c18Issue(r *R) {
 	// the id of the created channel is the request's id
 	for _, name := range []string{"OpenPushDataChannel", "OpenPullDataChannel"} {
 		fn := r.fn("C18.2", "impl", "manager", name)
-		rq := r.one("C18.2", fn, "(*impl.manager).newRequest")
+		rq := r.oneOf("C18.2", fn, "(*impl.manager).newRequest", "dyn:message.NewRequest")
 		cn := r.one("C18.2", fn, "(*channels.Channels).CreateNew")
 		if rq != nil && cn != nil {
 			r.argIs("C18.2", cn, 1, r.v(rq)+"#0.TransferID()", "transfer id of the created channel")
